@@ -209,7 +209,7 @@ type c08pCall struct {
 	quietStart bool // no other call was between transport exit and return at the start
 	op         c08pOp
 	sends      int
-	outcome    string // what the transport did: ok | code | neterr | timeout
+	outcome    string // what the transport did: ok | code | neterr | timeout | cancelled
 	code       int
 	failed     bool // ... and whether that is a failed call by the pool's failureCodes
 }
@@ -407,14 +407,17 @@ func c08pExec(r *sim.Run, sci interface{}) {
 		if !r.Violated() && !r.Aborted() {
 			r.Sleep(d)
 		}
-		if qctx.Err() != nil {
+		if err := qctx.Err(); err == stdcontext.Canceled {
+			// no client ever goes away here: only the pool timeout may end a request's context
+			st.outcome = "cancelled"
+		} else if err != nil {
 			st.outcome = "timeout"
 			timeouts++
 			sawTimeout = true
 		} else if st.outcome == "hang" {
 			st.outcome = "neterr"
 		}
-		st.failed = st.outcome == "neterr" || st.outcome == "timeout" || (st.outcome == "code" && isFailCode(st.code))
+		st.failed = st.outcome == "neterr" || st.outcome == "timeout" || st.outcome == "cancelled" || (st.outcome == "code" && isFailCode(st.code))
 		observe(st.pool)
 		transportExits[st.pool]++
 		postExit[st.pool]++
@@ -422,7 +425,7 @@ func c08pExec(r *sim.Run, sci interface{}) {
 			failedExits[st.pool]++
 		}
 		switch st.outcome {
-		case "timeout":
+		case "timeout", "cancelled":
 			return nil, qctx.Err()
 		case "neterr":
 			return nil, c08pErrNet
@@ -553,6 +556,8 @@ func c08pExec(r *sim.Run, sci interface{}) {
 						name, op.Stream, pi, transportExits[pi], failedExits[pi], sc.MinCalls, other, describe(), history())
 				case st.sends == 0 && st.seenClosed && s1 == libcb.StateClosed && exitsByOthers == 0 && st.quietStart:
 					r.Violate("C08.proxy-shortcircuit-while-closed", "call %s (stream=%v) was short-circuited although the breaker was CLOSED before and after it and no other call left the transport in between\n%s\nhistory: %s", name, op.Stream, describe(), history())
+				case st.sends == 1 && st.outcome == "cancelled":
+					r.Violate("C08.proxy-admitted-not-once", "call %s was admitted but its request context was cancelled (not timed out) while the transport held it, although no client went away; result %q status %d\n%s\nhistory: %s", name, result, status, describe(), history())
 				case st.sends == 1 && st.outcome == "timeout":
 					// cut off by the pool timeout: a failed call (C10 owns the exact 408 / timeout mapping)
 					if result == "" || result == "shortCircuited" || !hasResp || status < 400 {
